@@ -10,6 +10,7 @@ import (
 
 	"github.com/gofiber/fiber/v3/binder"
 	"github.com/gofiber/utils/v2"
+	"github.com/tinylib/msgp/msgp"
 	"github.com/valyala/bytebufferpool"
 )
 
@@ -298,10 +299,24 @@ func (r *Redirect) parseAndClearFlashMessages() {
 	// parse flash messages
 	cookieValue := r.c.Cookies(FlashCookieName)
 
-	_, err := r.c.flashMessages.UnmarshalMsg(r.c.app.getBytes(cookieValue))
-	if err != nil {
+	raw := r.c.app.getBytes(cookieValue)
+
+	// every encoded message needs at least one byte, so a header announcing more
+	// messages than there are bytes left can never decode
+	if n, _, err := msgp.ReadArrayHeaderBytes(raw); err != nil || int(n) > len(raw) {
+		r.c.flashMessages = r.c.flashMessages[:0]
 		return
 	}
+
+	// the generated decoder only fills the fields present in the input
+	clear(r.c.flashMessages[:cap(r.c.flashMessages)])
+
+	if _, err := r.c.flashMessages.UnmarshalMsg(raw); err != nil {
+		r.c.flashMessages = r.c.flashMessages[:0]
+		return
+	}
+
+	r.c.ClearCookie(FlashCookieName)
 }
 
 // processFlashMessages is a helper function to process flash messages and old input data
